@@ -836,7 +836,10 @@ def _run_real(ctx, case):
     import tempfile
     if not ctx.get("tmp"):
         ctx["tmp"] = tempfile.mkdtemp(prefix="verif_cli_")
-    return run_case(dict(case, max_write=None), executor=_real_executor(ctx["tmp"]))
+    try:
+        return run_case(dict(case, max_write=None), executor=_real_executor(ctx["tmp"]))
+    except NoPty:
+        return {"violations": [], "stats": Stats(), "log": [""], "steps": 0, "nopty": True}
 
 
 def execute(ctx, case, log):
@@ -859,7 +862,8 @@ def execute(ctx, case, log):
                     probe = None          # delivery-specific: only the simulation can judge
             if probe is not None:
                 real = _run_real(ctx, probe)
-                if not ({v["class"] for v in res["violations"]} &
+                if not real.get("nopty") and not (
+                        {v["class"] for v in res["violations"]} &
                         {v["class"] for v in real["violations"]}):
                     ctx["mode"] = "real"
                     res = real if probe is case else \
@@ -922,6 +926,11 @@ def minimise(ctx, case, violation):
     return case
 
 
+class NoPty(Exception):
+    """This sandbox hands out no pseudo-terminals: tty cases cannot be run as
+    real processes (they are then simply not cross-checked)."""
+
+
 def _real_process(case, dest, tmpdir, keep_file=False):
     """The same invocation as a real OS process with real pipes / a real pty /
     a real file.  -> (status, stdout bytes, file bytes or None[, stderr text])"""
@@ -936,7 +945,10 @@ def _real_process(case, dest, tmpdir, keep_file=False):
     tty = dest == "tty" or (dest == "output" and case.get("output_stdout_tty", False))
     if tty:
         import pty
-        master, slave = pty.openpty()
+        try:
+            master, slave = pty.openpty()
+        except OSError as e:
+            raise NoPty(str(e))
         p = subprocess.Popen(cmd, stdin=subprocess.PIPE, stdout=slave, stderr=subprocess.PIPE,
                              env=env, cwd=tmpdir)
         os.close(slave)
@@ -1016,6 +1028,8 @@ def confirm(ctx, case, violation):
     with tempfile.TemporaryDirectory(prefix="verif_cli_") as td:
         try:
             res = run_case(dict(case, max_write=None), executor=_real_executor(td))
+        except NoPty:
+            return None
         except Exception as e:  # noqa
             return f"real-process confirmation failed to run: {e!r}"
     classes = {v["class"] for v in res["violations"]}
@@ -1056,7 +1070,10 @@ def post_batch(tier, master, opts):
                 continue
             case.pop("max_write", None)
             sim = fs.run(_sim_only, case, timeout=120)
-            st, out, fb = _real_process(case, case["dest"], td)
+            try:
+                st, out, fb = _real_process(case, case["dest"], td)
+            except NoPty:
+                continue
             if (st, out, fb) != (sim["status"], sim["stdout"], sim["file"]):
                 raise core.HarnessError(
                     "simulated process differs from the real one for case "
